@@ -325,7 +325,7 @@ set_option maxHeartbeats 800000 in
 theorem sqOuter_step (B inv : ℕ) (keep : Bool) (hB : 3 ≤ B) (a md pre as : List ℕ) (ai : ℕ) (s : SqSt) (M : ℕ)
     (ha : AllLtB B a) (hmd : AllLtB B md) (hla : a.length = md.length)
     (hinv : (inv * md.headD 0) % B = B - 1) (haM : valB B a < valB B md)
-    (hkeep : keep = false → 4 * valB B md ≤ B ^ md.length)
+    (hkeep : keep = false → 3 * valB B md ≤ B ^ md.length)
     (h : SqInv B keep a md pre (ai :: as) s M) :
     ∃ M', SqInv B keep a md (pre ++ [ai]) as (sqOuter B inv keep pre.length ai as md s) M'
       ∧ (sqOuter B inv keep pre.length ai as md s).ok = s.ok := by
@@ -477,7 +477,7 @@ theorem sqOuter_step (B inv : ℕ) (keep : Bool) (hB : 3 ≤ B) (a md pre as : L
 theorem sqLoop_spec (B inv : ℕ) (keep : Bool) (hB : 3 ≤ B) (a md : List ℕ)
     (ha : AllLtB B a) (hmd : AllLtB B md) (hla : a.length = md.length)
     (hinv : (inv * md.headD 0) % B = B - 1) (haM : valB B a < valB B md)
-    (hkeep : keep = false → 4 * valB B md ≤ B ^ md.length)
+    (hkeep : keep = false → 3 * valB B md ≤ B ^ md.length)
     (suf pre : List ℕ) (s : SqSt) (M : ℕ) (h : SqInv B keep a md pre suf s M) :
     ∃ M', SqInv B keep a md a [] (sqLoop B inv keep md suf pre.length s) M'
       ∧ (sqLoop B inv keep md suf pre.length s).ok = s.ok := by
@@ -498,21 +498,21 @@ theorem squareRedc_spec (B : ℕ) (keepSq : ℕ → Bool) (inv : ℕ) (a md : Li
     (hN : 0 < md.length) (hla : a.length = md.length)
     (ha : AllLtB B a) (hmd : AllLtB B md)
     (hinv : (inv * md.headD 0) % B = B - 1) (haM : valB B a < valB B md)
-    (hkeep : ∀ top, keepSq top = false → 4 * (top + 1) ≤ B) :
+    (hkeep : ∀ top, keepSq top = false → 3 * (top + 1) ≤ B) :
     ∃ r, squareRedc B keepSq inv a md = some r ∧ r.length = md.length ∧ AllLtB B r
       ∧ valB B r < valB B md
       ∧ (B ^ md.length * valB B r) % valB B md = (valB B a * valB B a) % valB B md := by
   have hne : md ≠ [] := by intro h; rw [h] at hN; simp at hN
   have hB0 : 0 < B := by omega
   have hmd0 : 0 < valB B md := by omega
-  have hk : keepSq (md.getLastD 0) = false → 4 * valB B md ≤ B ^ md.length := by
+  have hk : keepSq (md.getLastD 0) = false → 3 * valB B md ≤ B ^ md.length := by
     intro h
     have h1 := hkeep _ h
     have h2 := valB_lt_of_top B md hmd hne
     have h3 : B ^ md.length = B * B ^ (md.length - 1) := by
       rw [← pow_succ']; congr 1; omega
     rw [h3]
-    have : 4 * ((md.getLastD 0 + 1) * B ^ (md.length - 1)) ≤ B * B ^ (md.length - 1) := by
+    have : 3 * ((md.getLastD 0 + 1) * B ^ (md.length - 1)) ≤ B * B ^ (md.length - 1) := by
       rw [← Nat.mul_assoc]; exact Nat.mul_le_mul_right _ h1
     omega
   obtain ⟨s0, hs0⟩ : ∃ s0 : SqSt, s0 = SqSt.mk (List.replicate md.length 0) 0 (preOk B inv a md) := ⟨_, rfl⟩
